@@ -78,6 +78,10 @@ def addr_sym(a: int) -> str:
 
 def mk_world(world: dict, args=None, fun_name="t"):
     args = args or base_config()
+    from halmos.mapper import BuildOut
+
+    if BuildOut()._build_out_map is None:
+        BuildOut().set_build_out({})  # no artifacts: created contracts are simply "unknown bytecode"
     sevm = SEVM(args, FunctionInfo("T", fun_name, fun_name + "()", "f8a8fd6d"))
     code, storage, tstorage = {}, {}, {}
     for acc in world["accounts"]:
@@ -89,6 +93,15 @@ def mk_world(world: dict, args=None, fun_name="t"):
     target = con_addr(world["target"])
     n = world.get("cdlen", 0)
     cd = ByteVec(BitVec("cd", 8 * n)) if n else ByteVec()
+    if n and world.get("cdwords"):
+        # one symbol per 32-byte word (as halmos' own calldata builder does for static arguments):
+        # aligned CALLDATALOADs then return plain variables, which is what the path
+        # concretization logic keys on
+        cd = ByteVec()
+        for i in range(n // 32):
+            cd.append(BitVec(f"cdw{i}", 256))
+        if n % 32:
+            cd.append(BitVec("cdtail", 8 * (n % 32)))
     if world.get("cd_concrete") is not None:
         cd = ByteVec(bytes.fromhex(world["cd_concrete"]))
 
@@ -194,7 +207,13 @@ def env_for_inputs(world: dict, inp: dict, extra_funcs=None) -> symeval.Env:
     consts = {}
     n = world.get("cdlen", 0)
     if n and world.get("cd_concrete") is None:
-        consts["cd"] = int.from_bytes(bytes.fromhex(inp["cd"]), "big")
+        raw = bytes.fromhex(inp["cd"])
+        consts["cd"] = int.from_bytes(raw, "big")
+        if world.get("cdwords"):
+            for i in range(n // 32):
+                consts[f"cdw{i}"] = int.from_bytes(raw[32 * i : 32 * i + 32], "big")
+            if n % 32:
+                consts["cdtail"] = int.from_bytes(raw[32 * (n // 32) :], "big")
     for k in ("caller", "origin", "value"):
         if world.get(k, "sym") == "sym":
             consts[k] = inp[k]
